@@ -361,6 +361,112 @@ def element_bad(m, a, v):
     return judge(m, a, v) is not None
 
 
+
+# ------------------------------------------------------------------ container types of the sequence arguments
+# shuffle documents `items: Iterable`; choice/choicew document `seq: Sequence`, `weights: Sequence`.
+from collections import deque as _deque
+
+SHUFFLE_CTYPES = ['list', 'tuple', 'range', 'str', 'iter', 'gen', 'map', 'dict_keys', 'dict_values', 'set', 'deque']
+CHOICE_CTYPES = ['list', 'tuple', 'range', 'str']
+WEIGHT_CTYPES = ['none', 'list', 'tuple']
+ONE_SHOT = ('iter', 'gen', 'map')
+N_CONTAINER_STATES = 256                    # per kind: lowest states, highest states, plain seeds 0..255
+
+
+def container_items(ctype, n):
+    if ctype == 'range': return list(range(n))
+    return ['a', 'b', 'c', 'd'][:n]
+
+
+def build_container(ctype, n):
+    """A FRESH container of the given type holding container_items(ctype, n) in that order."""
+    it = container_items(ctype, n)
+    if ctype == 'list': return list(it)
+    if ctype == 'tuple': return tuple(it)
+    if ctype == 'range': return range(n)
+    if ctype == 'str': return ''.join(it)
+    if ctype == 'iter': return iter(list(it))
+    if ctype == 'gen': return (x for x in list(it))
+    if ctype == 'map': return map(str, list(it))
+    if ctype == 'dict_keys': return dict.fromkeys(it).keys()
+    if ctype == 'dict_values': return dict(enumerate(it)).values()
+    if ctype == 'set': return set(it)
+    if ctype == 'deque': return _deque(it)
+    raise ValueError(ctype)
+
+
+def container_class(ctype):
+    if ctype in ONE_SHOT: return 'one-shot iterable input (iterator/generator/map)'
+    if ctype in ('dict_keys', 'dict_values', 'set'): return 'dict view / set input'
+    if ctype == 'list': return 'list input'
+    return 'tuple/range/str/deque input'
+
+
+def container_call(acc, m, ctype, n, inplace, wtype, seed, report=True):
+    """ONE call of a sequence-taking method with a fresh container of type `ctype` and length n on a fresh real
+    generator in pre-state `seed`.  -> (violates, value signature).  Also the replay of every container witness."""
+    items = container_items(ctype, n)
+    arg = build_container(ctype, n)
+    lenc = 'n<2' if n < 2 else 'n>=2'
+    witness = {'part': 'container', 'm': m, 'ctype': ctype, 'n': n, 'inplace': inplace, 'wtype': wtype, 'seed': seed}
+
+    def bad(mode, feature, what):
+        if report: acc.violation(f'{m}|{mode}|{feature}', what, witness)
+        return True, None
+
+    r = CobaRandom(seed)
+    if m == 'shuffle':
+        feature = f'{container_class(ctype)}; {lenc}; inplace={inplace}'
+        call = f'CobaRandom({seed}).shuffle(<{ctype} of {items!r}>, inplace={inplace})'
+        try:
+            res = r.shuffle(arg, inplace) if inplace else r.shuffle(arg)
+        except Exception as e:   # noqa
+            return bad(f'raises {type(e).__name__}', feature, f'{call} raised {e!r}')
+        try:
+            got = list(res)
+        except Exception as e:   # noqa
+            return bad('result cannot be read', feature, f'{call} returned {res!r}')
+        if len(got) != n or sorted(got, key=repr) != sorted(items, key=repr):
+            return bad('not a permutation of its input', feature, f'{call} returned {res!r} holding {got!r}')
+        if not hasattr(res, '__len__') or list(res) != got:
+            return bad('result is not a sequence (one-shot / no len)', feature, f'{call} returned {res!r}')
+        if inplace:
+            if list(arg) != got:
+                return bad('inplace: the given container does not hold the returned order', feature, f'{call}: container {list(arg)!r}, returned {got!r}')
+        elif ctype in ('list', 'deque'):
+            if list(arg) != items:
+                return bad('argument mutated although inplace=False', feature, f'{call}: the argument now holds {list(arg)!r}')
+            if res is arg:
+                return bad('returns its mutable argument although inplace=False', feature, f'{call} returned the argument object itself')
+        return False, tuple(got)
+    # choice / choicew
+    weights = None if wtype == 'none' else [.2, .3, .5, .1][:n]
+    warg = None if weights is None else (list(weights) if wtype == 'list' else tuple(weights))
+    feature = f'{container_class(ctype)}; weights {wtype}'
+    call = f'CobaRandom({seed}).{m}(<{ctype} of {items!r}>' + ('' if warg is None else f', {warg!r}') + ')'
+    try:
+        v = getattr(r, m)(arg) if warg is None else getattr(r, m)(arg, warg)
+    except Exception as e:   # noqa
+        return bad(f'raises {type(e).__name__}', feature, f'{call} raised {e!r}')
+    mode = judge(m, [items] if weights is None else [items, weights], v, seed)
+    if mode: return bad(mode, feature, f'{call} returned {v!r}')
+    if ctype == 'list' and arg != items:
+        return bad('sequence argument mutated', feature, f'{call}: the argument now holds {arg!r}')
+    if wtype == 'list' and warg != weights:
+        return bad('weights argument mutated', feature, f'{call}: the weights now hold {warg!r}')
+    return False, v if not isinstance(v, list) else tuple(v)
+
+
+def container_seeds():
+    """Pre-states for the container cases: the boundary state as first draw (lowest / highest) and plain small seeds."""
+    A_, C_ = _BACK[1]
+    mask = M - 1
+    out = [(A_ * s + C_) & mask for s in range(N_CONTAINER_STATES)]
+    out += [(A_ * s + C_) & mask for s in range(M - 1, M - 1 - N_CONTAINER_STATES, -1)]
+    out += list(range(N_CONTAINER_STATES))
+    return out
+
+
 # ------------------------------------------------------------------ HIST: purity under interleaving
 INST = (('A', 1), ('B', 1), ('C', 2.5))
 INST_SEED = dict(INST)
@@ -595,6 +701,7 @@ class C05(Check):
             'arguments) of the alphabet (random x 10 bound pairs, randint x 5, choice/choicew x sequences len 0..7 x weights incl. zeros, '
             'incl. equal members with different weights, shuffle n in {0,1,2,3,5}, gauss pair, randoms/randints/gausses) on a fresh real object; thorough adds one full-orbit pass '
             'per (method, arguments, alignment), cheapest first, until the time budget is used (completed passes listed in evidence). '
+            'container cases: shuffle x 11 input container types (list, tuple, range, str, iterator, generator, map, dict views, set, deque) x lengths 0..3 x inplace (lists), choice/choicew x 4 sequence types x lengths 1..3 x weights {none, list, tuple}, each on 768 states (256 lowest, 256 highest as first draw, seeds 0..255); '
             '(b) HIST: every history of length <=4 over 39 letters (thorough adds every history of length 5 over a 22-letter and of length 6 over an 11-letter sub-alphabet): {A=CobaRandom(1), '
             'B=CobaRandom(1)} x 15 calls (every public method and code path), C=CobaRandom(2.5) x 3 calls, module-level seed/random/shuffle, stdlib random/seed, construction of a '
             'further instance; cases = history prefixes of length <=2, each case runs all its extensions; plus 17 seeds constructed twice '
@@ -606,7 +713,7 @@ class C05(Check):
         'contracts are exhaustive over generator states but over the finite argument list in RULE; bounds |min|,|max| <= 2^20, max-min >= 2^-20',
         'which value / member / permutation is returned is not constrained, nor is statistical quality; bulk methods are not required to equal their scalar forms',
         'choice/choicew on an empty sequence or with all-zero weights have no valid answer: an exception is the accepted outcome',
-        'shuffle: only "returns a permutation of its input" is demanded (whether the input list is left alone is C09)',
+        'shuffle: "returns a permutation of its input" is read as: for every documented input type (any Iterable; lengths 0..3) the result is a sequence (len, re-readable) holding exactly the input items; with inplace=False (default) a list/deque argument is neither mutated nor returned itself, with inplace=True the given list holds the returned order. inplace=True is only exercised on lists; choice/choicew only on Sequences (list, tuple, range, str) with weights as list or tuple',
         'choicew with equal members of different weights: the weight must be that of a selectable member equal to the item and, at the boundary states (known generator state), that of the position the same state selects through choice(range(n), weights) on the real class',
         'None seeds and the module-level functions before the first coba.random.seed(k) are time-seeded by design and excluded; after seed(k) the module functions are required to behave as a CobaRandom(k)',
         'purity reference = the same real class driven alone in the same process (differential); the effect of coba on stdlib random is not constrained',
@@ -639,6 +746,9 @@ class C05(Check):
         for l in LETTERS: yield {'part': 'hist', 'alpha': 'full', 'prefix': [l], 'depth': 1}
         yield {'part': 'boundary', 'side': 'low', 'block': 0}
         yield {'part': 'boundary', 'side': 'high', 'block': 0}
+        for c in SHUFFLE_CTYPES: yield {'part': 'containers', 'm': 'shuffle', 'ctype': c}
+        for m in ('choice', 'choicew'):
+            for c in CHOICE_CTYPES: yield {'part': 'containers', 'm': m, 'ctype': c}
         for h in (1, 2, 3): yield {'part': 'subproc', 'hashseed': h}
         for p in itertools.product(LETTERS, repeat=2): yield {'part': 'hist', 'alpha': 'full', 'prefix': list(p), 'depth': depth}
         for b in range(1, NB // NB_BLOCK):
@@ -660,6 +770,9 @@ class C05(Check):
         elif part == 'subproc': self.run_subproc(case, acc)
         elif part == 'hist': self.run_hist(case, acc)
         elif part == 'boundary': self.run_boundary(case, acc)
+        elif part == 'containers': self.run_containers(case, acc)
+        elif part == 'container':
+            container_call(acc, case['m'], case['ctype'], case['n'], case['inplace'], case['wtype'], case['seed']); acc.mark_nontrivial()
         elif part == 'orbit-block':
             r = CobaRandom(case['start'])
             try: blk = bulk(r, case['m'], case['a'], case['n'])
@@ -775,6 +888,24 @@ class C05(Check):
             if trial and any(k == key for k, _ in classify_history(trial)): ops = trial
             else: i += 1
         return {'part': 'history', 'ops': ops}
+
+    # -------------------------------------------------------------- (a) container types of the sequence arguments
+    def run_containers(self, case, acc):
+        m, ctype = case['m'], case['ctype']
+        ncalls = 0
+        seen = set()
+        if m == 'shuffle':
+            combos = [(n, ip, 'none') for n in (0, 1, 2, 3) for ip in ((False, True) if ctype == 'list' else (False,))]
+        else:
+            combos = [(n, False, w) for n in (1, 2, 3) for w in WEIGHT_CTYPES]
+        for seed in container_seeds():
+            for n, ip, w in combos:
+                ncalls += 1
+                viol, sig = container_call(acc, m, ctype, n, ip, w, seed)
+                if not viol: seen.add((n, ip, w, sig))
+        acc.count('container_calls', ncalls)
+        acc.outcome(('containers', m, ctype, len(seen)))
+        if len(seen) > len(combos): acc.mark_nontrivial()          # some (length, flags) combination returned >= 2 distinct results
 
     # -------------------------------------------------------------- (a) boundary states
     def run_boundary(self, case, acc):
